@@ -27,6 +27,7 @@
 #include <algorithm>
 #include <atomic>
 #include <climits>
+#include <cstring>
 #include <functional>
 #include <thread>
 #include <utility>
@@ -48,17 +49,35 @@ static std::atomic<int> g_next_serial{1};
 struct Serial { int v; Serial() : v(g_next_serial++) {} };
 static thread_local Serial t_serial;
 
+// set when an element in moved-from state is read (copied / moved / assigned from)
+static std::atomic<bool> g_moved_observed{false};
+
+// The element type is *move-sensitive*: moving from an element marks the source (`moved`, key poisoned).
+// The merge must never move from the caller's sequences, and must never read a moved-from element.
 struct E {
     ll key = 0;
     int seq = -1, pos = -1;
     int writes = 0;
     int writer = 0;
+    bool moved = false;
     E() {}
     E(ll k, int s, int p) : key(k), seq(s), pos(p) {}
-    E(const E& o) : key(o.key), seq(o.seq), pos(o.pos) {}
+    E(const E& o) : key(o.key), seq(o.seq), pos(o.pos) { if (o.moved) g_moved_observed = true; }
+    E(E&& o) noexcept : key(o.key), seq(o.seq), pos(o.pos) {
+        if (o.moved) g_moved_observed = true;
+        o.moved = true; o.key = -987654321;
+    }
     E& operator=(const E& o) {
-        key = o.key; seq = o.seq; pos = o.pos;
+        if (o.moved) g_moved_observed = true;
+        key = o.key; seq = o.seq; pos = o.pos; moved = false;
         ++writes; writer = t_serial.v;
+        return *this;
+    }
+    E& operator=(E&& o) noexcept {
+        if (o.moved) g_moved_observed = true;
+        key = o.key; seq = o.seq; pos = o.pos; moved = false;
+        ++writes; writer = t_serial.v;
+        if (this != &o) { o.moved = true; o.key = -987654321; }
         return *this;
     }
     // *poisoned* default order: a scrambled function of (pos, seq), inconsistent with every comparator the
@@ -159,6 +178,7 @@ static void do_pm(const std::vector<std::string>& t, const std::string& line) {
     std::vector<E> out(static_cast<size_t>(size));
     for (auto& e : out) { e.writes = 0; e.seq = -9; }
     for (auto& st : store) for (auto& e : st) e.writes = 0;
+    g_moved_observed = false;
 
     tlx::parallel_multiway_merge_force_sequential = fseq;
     tlx::parallel_multiway_merge_force_parallel = fpar;
@@ -222,10 +242,11 @@ static void do_pm(const std::vector<std::string>& t, const std::string& line) {
     bool in_ok = true;
     for (size_t s = 0; s < k; ++s) {
         for (size_t p = 0; p < runs[s].size(); ++p)
-            if (store[s][p].writes != 0 || store[s][p].key != runs[s][p].key || store[s][p].pos != (int)p) in_ok = false;
+            if (store[s][p].writes != 0 || store[s][p].moved || store[s][p].key != runs[s][p].key || store[s][p].pos != (int)p) in_ok = false;
         if (sent && (store[s].back().writes != 0 || store[s].back().key != sentinel_key)) in_ok = false;
     }
     if (!in_ok) bad.push_back("an input sequence was modified");
+    if (g_moved_observed.exchange(false)) bad.push_back("an element in moved-from state was read");
     bool keys_ok = true, exact_ok = true;
     for (long i = 0; i < size; ++i) {
         if (comp(out[i], all[i]) || comp(all[i], out[i])) keys_ok = false;
@@ -262,6 +283,216 @@ static void do_pm(const std::vector<std::string>& t, const std::string& line) {
     for (auto& b : bad) vh::viol(b + " in " + line);
 }
 
+// ------------------------------------------------------------------ std::string keys (move-sensitive by nature)
+//   pmstr <variant u|s> <cmp lt|gt> <split> <threads> <osf> <algo> <force> <mink> <minn> <size> <run> ...
+// keys >= 0, stored as zero-padded decimal strings (lexicographic order = numeric order); a moved-from
+// std::string is empty.  answer: out <k,k,..> ret <n> begins <..>
+struct StrComp {
+    bool gt;
+    bool operator()(const std::string& a, const std::string& b) const { return gt ? (a > b) : (a < b); }
+};
+static std::string skey(ll k) { char buf[32]; snprintf(buf, sizeof buf, "%012lld", k); return std::string(buf); }
+
+static void do_pmstr(const std::vector<std::string>& t, const std::string& line) {
+    if (t.size() < 11) { vh::answer("bad-op"); return; }
+    bool stable;
+    if (t[1] == "s") stable = true; else if (t[1] == "u") stable = false; else { vh::answer("bad-op"); return; }
+    bool gt;
+    if (t[2] == "lt") gt = false; else if (t[2] == "gt") gt = true; else { vh::answer("bad-op"); return; }
+    tlx::MultiwayMergeSplittingAlgorithm mwmsa;
+    if (t[3] == "exact") mwmsa = tlx::MWMSA_EXACT; else if (t[3] == "sampling") mwmsa = tlx::MWMSA_SAMPLING; else { vh::answer("bad-op"); return; }
+    long threads, osf, mink, minn, size;
+    std::vector<std::vector<ll>> keys;
+    try {
+        threads = std::stol(t[4]); osf = std::stol(t[5]);
+        mink = std::stol(t[8]); minn = std::stol(t[9]); size = std::stol(t[10]);
+        for (size_t i = 11; i < t.size(); ++i) keys.push_back(vh::csv(t[i]));
+    } catch (...) { vh::answer("bad-op"); return; }
+    tlx::MultiwayMergeAlgorithm mwma;
+    if (t[6] == "lt") mwma = tlx::MWMA_LOSER_TREE; else if (t[6] == "ltc") mwma = tlx::MWMA_LOSER_TREE_COMBINED;
+    else if (t[6] == "lts") mwma = tlx::MWMA_LOSER_TREE_SENTINEL; else if (t[6] == "bubble") mwma = tlx::MWMA_BUBBLE;
+    else { vh::answer("bad-op"); return; }
+    bool fpar = t[7] == "par", fseq = t[7] == "seq";
+    if (!fpar && !fseq && t[7] != "auto") { vh::answer("bad-op"); return; }
+    long total = 0;
+    for (auto& r : keys) total += (long)r.size();
+    bool ok = threads >= 1 && threads <= 64 && osf >= 1 && osf <= 64 && mink >= 0 && minn >= 0 && size >= 0 && size <= total;
+    StrComp comp{gt};
+    size_t k = keys.size();
+    std::vector<std::vector<std::string>> runs(k);
+    for (size_t s = 0; s < k && ok; ++s) {
+        for (ll x : keys[s]) { if (x < 0) ok = false; runs[s].push_back(skey(x)); }
+        for (size_t p = 1; p < runs[s].size(); ++p) if (comp(runs[s][p], runs[s][p - 1])) ok = false;
+    }
+    if (!ok) { vh::answer("bad-op"); return; }
+    std::vector<std::vector<std::string>> store = runs;
+    for (auto& st : store) st.shrink_to_fit();
+    std::vector<std::pair<std::string*, std::string*>> seqs(k);
+    for (size_t s = 0; s < k; ++s) seqs[s] = std::make_pair(store[s].data(), store[s].data() + store[s].size());
+    std::vector<std::string> out(static_cast<size_t>(size), std::string("unwritten"));
+    tlx::parallel_multiway_merge_force_sequential = fseq;
+    tlx::parallel_multiway_merge_force_parallel = fpar;
+    tlx::parallel_multiway_merge_minimal_k = static_cast<size_t>(mink);
+    tlx::parallel_multiway_merge_minimal_n = static_cast<size_t>(minn);
+    tlx::parallel_multiway_merge_oversampling = static_cast<size_t>(osf);
+    std::string* target = out.data();
+    std::string* ret;
+    size_t nt = static_cast<size_t>(threads);
+    if (stable) ret = tlx::stable_parallel_multiway_merge(seqs.begin(), seqs.end(), target, size, comp, mwma, mwmsa, nt);
+    else ret = tlx::parallel_multiway_merge(seqs.begin(), seqs.end(), target, size, comp, mwma, mwmsa, nt);
+    std::vector<long> begins(k);
+    for (size_t s = 0; s < k; ++s) begins[s] = seqs[s].first - store[s].data();
+    std::vector<std::string> shown;
+    for (auto& o : out) {
+        size_t nz = o.find_first_not_of('0');
+        shown.push_back(o.empty() ? std::string("EMPTY") : (nz == std::string::npos ? std::string("0") : o.substr(nz)));
+    }
+    vh::answer("out " + vh::show_csv(shown) + " ret " + std::to_string(ret - target) + " begins " + vh::show_csv(begins));
+    // oracle
+    std::vector<std::string> bad;
+    struct T { std::string k; size_t s; };
+    std::vector<T> all;
+    for (size_t s = 0; s < k; ++s) for (auto& x : runs[s]) all.push_back(T{x, s});
+    std::stable_sort(all.begin(), all.end(), [&](const T& a, const T& b) { return comp(a.k, b.k); });
+    if (ret - target != size) bad.push_back("returned iterator is target+" + std::to_string(ret - target) + ", expected target+" + std::to_string(size));
+    bool keys_ok = true;
+    for (long i = 0; i < size; ++i) if (out[i] != all[i].k) keys_ok = false;
+    if (!keys_ok) bad.push_back("output is not the sequence of the `size` smallest elements in merged order");
+    if (store != runs) bad.push_back("an input sequence was modified (std::string keys)");
+    std::vector<long> want(k, 0);
+    for (long i = 0; i < size; ++i) want[all[i].s]++;
+    long bsum = 0; bool b_in = true;
+    for (size_t s = 0; s < k; ++s) { if (begins[s] < 0 || begins[s] > (long)runs[s].size()) b_in = false; bsum += begins[s]; }
+    if (!b_in) bad.push_back("an input begin was moved outside its sequence");
+    else if (stable && begins != want) bad.push_back("inputs not advanced past exactly the elements they contributed (stable merge counts)");
+    else if (!stable && bsum != size) bad.push_back("inputs not advanced past exactly the elements they contributed");
+    for (auto& b : bad) vh::viol(b + " in " + line);
+}
+
+// ------------------------------------------------------------------ front ends called WITHOUT a comparator
+//   pmd <front> <types> <force par|seq> <size> <run> ...
+//      front  pm|spm|pms|spms   (stable_)parallel_multiway_merge(_sentinels)
+//             mm|smm|mms|smms   (stable_)multiway_merge(_sentinels)            (sequential reference)
+//      types  iu  int keys merged into an unsigned array      (conversion does not preserve the order of negatives)
+//             il  int keys merged into a long array
+//             st  struct S {int k} (operator< by k) merged into struct T {long k} whose operator< is reversed
+// The default comparator must be std::less of the INPUT value type.  answer: out <k,..> ret <n> begins <..>
+struct SIn {
+    int k = 0; int seq = -1, pos = -1;
+    friend bool operator<(const SIn& a, const SIn& b) { return a.k < b.k; }          // the order of the inputs
+};
+struct TOut {
+    long k = 0; int seq = -1, pos = -1;
+    TOut() {}
+    TOut(const SIn& s) : k(s.k), seq(s.seq), pos(s.pos) {}
+    friend bool operator<(const TOut& a, const TOut& b) { return a.k > b.k; }        // poisoned: reversed
+};
+
+template <typename InT, typename OutT, typename MakeIn, typename KeyOut, typename TagOut>
+static void run_pmd(const std::vector<std::string>& t, const std::string& line, MakeIn make_in, InT sentinel,
+                    KeyOut key_out, TagOut tag_out, bool has_tags) {
+    const std::string& front = t[1];
+    bool fpar = t[3] == "par", fseq = t[3] == "seq";
+    long size;
+    std::vector<std::vector<ll>> keys;
+    try { size = std::stol(t[4]); for (size_t i = 5; i < t.size(); ++i) keys.push_back(vh::csv(t[i])); }
+    catch (...) { vh::answer("bad-op"); return; }
+    size_t k = keys.size();
+    long total = 0;
+    bool ok = (fpar || fseq) && size >= 0;
+    for (auto& r : keys) {
+        total += (long)r.size();
+        for (size_t p = 0; p < r.size(); ++p) {
+            if (r[p] < -1000000 || r[p] > 1000000) ok = false;
+            if (p && r[p] < r[p - 1]) ok = false;
+        }
+    }
+    if (!ok || size > total) { vh::answer("bad-op"); return; }
+    bool stable = front[0] == 's';
+    bool sent = front == "pms" || front == "spms" || front == "mms" || front == "smms";
+    std::vector<std::vector<InT>> store(k);
+    for (size_t s = 0; s < k; ++s) {
+        for (size_t p = 0; p < keys[s].size(); ++p) store[s].push_back(make_in((int)keys[s][p], (int)s, (int)p));
+        if (sent) store[s].push_back(sentinel);
+        store[s].shrink_to_fit();
+    }
+    std::vector<std::vector<InT>> orig = store;
+    std::vector<std::pair<InT*, InT*>> seqs(k);
+    for (size_t s = 0; s < k; ++s) seqs[s] = std::make_pair(store[s].data(), store[s].data() + keys[s].size());
+    std::vector<OutT> out(static_cast<size_t>(size));
+    tlx::parallel_multiway_merge_force_sequential = fseq;
+    tlx::parallel_multiway_merge_force_parallel = fpar;
+    tlx::parallel_multiway_merge_minimal_k = 2;
+    tlx::parallel_multiway_merge_minimal_n = 1000;
+    tlx::parallel_multiway_merge_oversampling = 10;
+    OutT* target = out.data();
+    OutT* ret;
+    // NO comparator argument (and hence default algorithm, splitting and thread count)
+    if (front == "pm") ret = tlx::parallel_multiway_merge(seqs.begin(), seqs.end(), target, size);
+    else if (front == "spm") ret = tlx::stable_parallel_multiway_merge(seqs.begin(), seqs.end(), target, size);
+    else if (front == "pms") ret = tlx::parallel_multiway_merge_sentinels(seqs.begin(), seqs.end(), target, size);
+    else if (front == "spms") ret = tlx::stable_parallel_multiway_merge_sentinels(seqs.begin(), seqs.end(), target, size);
+    else if (front == "mm") ret = tlx::multiway_merge(seqs.begin(), seqs.end(), target, size);
+    else if (front == "smm") ret = tlx::stable_multiway_merge(seqs.begin(), seqs.end(), target, size);
+    else if (front == "mms") ret = tlx::multiway_merge_sentinels(seqs.begin(), seqs.end(), target, size);
+    else if (front == "smms") ret = tlx::stable_multiway_merge_sentinels(seqs.begin(), seqs.end(), target, size);
+    else { vh::answer("bad-op"); return; }
+    std::vector<long> begins(k);
+    for (size_t s = 0; s < k; ++s) begins[s] = seqs[s].first - store[s].data();
+    std::vector<ll> shown;
+    for (auto& o : out) shown.push_back(key_out(o));
+    vh::answer("out " + vh::show_csv(shown) + " ret " + std::to_string(ret - target) + " begins " + vh::show_csv(begins));
+    // oracle: the stable merge by the order of the INPUT value type
+    struct Tg { ll key; int s, p; };
+    std::vector<Tg> all;
+    for (size_t s = 0; s < k; ++s) for (size_t p = 0; p < keys[s].size(); ++p) all.push_back(Tg{keys[s][p], (int)s, (int)p});
+    std::stable_sort(all.begin(), all.end(), [](const Tg& a, const Tg& b) { return a.key < b.key; });
+    std::vector<std::string> bad;
+    if (ret - target != size) bad.push_back("returned iterator is target+" + std::to_string(ret - target) + ", expected target+" + std::to_string(size));
+    bool keys_ok = true, tags_ok = true;
+    for (long i = 0; i < size; ++i) {
+        if (shown[i] != all[i].key) keys_ok = false;
+        if (has_tags) { auto tg = tag_out(out[i]); if (tg.first != all[i].s || tg.second != all[i].p) tags_ok = false; }
+    }
+    if (!keys_ok) bad.push_back("output (no comparator given) is not the merge by the input type's operator<");
+    else if (stable && has_tags && !tags_ok) bad.push_back("output differs from the stable merge (order of equivalent elements)");
+    bool in_ok = true;
+    for (size_t s = 0; s < k; ++s)
+        for (size_t p = 0; p < store[s].size(); ++p)
+            if (memcmp(&store[s][p], &orig[s][p], sizeof(InT)) != 0) in_ok = false;
+    if (!in_ok) bad.push_back("an input sequence was modified");
+    std::vector<long> want(k, 0);
+    for (long i = 0; i < size; ++i) want[all[i].s]++;
+    long bsum = 0; bool b_in = true;
+    for (size_t s = 0; s < k; ++s) { if (begins[s] < 0 || begins[s] > (long)keys[s].size()) b_in = false; bsum += begins[s]; }
+    if (!b_in) bad.push_back("an input begin was moved outside its sequence");
+    else if (stable && begins != want) bad.push_back("inputs not advanced past exactly the elements they contributed (stable merge counts)");
+    else if (!stable && bsum != size) bad.push_back("inputs not advanced past exactly the elements they contributed");
+    for (auto& b : bad) vh::viol(b + " in " + line);
+}
+
+static void do_pmd(const std::vector<std::string>& t, const std::string& line) {
+    if (t.size() < 5) { vh::answer("bad-op"); return; }
+    static const char* fronts[] = {"pm", "spm", "pms", "spms", "mm", "smm", "mms", "smms"};
+    bool fok = false;
+    for (auto* f : fronts) if (t[1] == f) fok = true;
+    if (!fok) { vh::answer("bad-op"); return; }
+    auto notag = [](const auto&) { return std::make_pair(-1, -1); };
+    if (t[2] == "iu")
+        run_pmd<int, unsigned>(t, line, [](int k, int, int) { return k; }, INT_MAX,
+                               [](unsigned o) { return (ll)(int)o; }, notag, false);
+    else if (t[2] == "il")
+        run_pmd<int, long>(t, line, [](int k, int, int) { return k; }, INT_MAX,
+                           [](long o) { return (ll)o; }, notag, false);
+    else if (t[2] == "st") {
+        SIn sen; sen.k = INT_MAX; sen.seq = -1; sen.pos = -2;
+        run_pmd<SIn, TOut>(t, line, [](int k, int s, int p) { SIn x; x.k = k; x.seq = s; x.pos = p; return x; }, sen,
+                           [](const TOut& o) { return (ll)o.k; },
+                           [](const TOut& o) { return std::make_pair(o.seq, o.pos); }, true);
+    }
+    else vh::answer("bad-op");
+}
+
 int main(int, char**) {
     std::string line;
     while (std::getline(std::cin, line)) {
@@ -270,6 +501,8 @@ int main(int, char**) {
         if (t[0][0] == '#') { vh::answer(line); continue; }
         if (t[0] == "case") { vh::answer("case"); continue; }
         if (t[0] == "pm") do_pm(t, line);
+        else if (t[0] == "pmstr") do_pmstr(t, line);
+        else if (t[0] == "pmd") do_pmd(t, line);
         else if (t[0] == "es") do_es(t);
         else vh::answer("bad-op");
     }
